@@ -1,0 +1,67 @@
+//! Wrappers for the receive-side containers: `AnonymousIngressEngine` (PULL / SUB) with its
+//! per-pipe senders, and `AddressedIngressEngine` (DEALER / ROUTER / REQ / REP).
+use crate::message::{FrameBatch, Msg};
+use crate::socket::patterns::{AddressedIngressEngine, AnonymousIngressEngine, PipeMessageSender};
+use crate::ZmqError;
+use fibre::TrySendError;
+use std::time::Duration;
+
+/// The sender half handed to a connection by `register_pipe`.
+pub struct VPipeSender(PipeMessageSender);
+
+impl VPipeSender {
+  /// `PipeMessageSender::try_send_sync`: 0 = Ok, 1 = Full, 2 = Closed
+  pub fn try_send_sync(&self, batch: FrameBatch) -> u8 {
+    match self.0.try_send_sync(batch) {
+      Ok(()) => 0,
+      Err(TrySendError::Full(_)) => 1,
+      Err(_) => 2,
+    }
+  }
+  pub fn len(&self) -> usize {
+    self.0.len()
+  }
+}
+
+pub struct VAnonIngress(AnonymousIngressEngine);
+
+impl VAnonIngress {
+  pub fn new(activation_capacity: usize) -> Self {
+    Self(AnonymousIngressEngine::new(activation_capacity))
+  }
+  pub fn register_pipe(&self, pipe_id: usize, capacity: usize, drain_delta: usize) -> VPipeSender {
+    VPipeSender(self.0.register_pipe(pipe_id, capacity, drain_delta))
+  }
+  pub fn deregister_pipe(&self, pipe_id: usize) {
+    self.0.deregister_pipe(pipe_id)
+  }
+  pub fn close(&self) {
+    self.0.close()
+  }
+  pub async fn recv(&self, rcvtimeo: Option<Duration>) -> Result<Msg, ZmqError> {
+    self.0.recv(rcvtimeo).await
+  }
+  pub async fn recv_multipart(&self, rcvtimeo: Option<Duration>) -> Result<FrameBatch, ZmqError> {
+    self.0.recv_multipart(rcvtimeo).await
+  }
+}
+
+pub struct VAddrIngress(AddressedIngressEngine);
+
+impl VAddrIngress {
+  pub fn new(activation_capacity: usize) -> Self {
+    Self(AddressedIngressEngine::new(activation_capacity))
+  }
+  pub fn register_pipe(&self, pipe_id: usize, capacity: usize, drain_delta: usize) -> VPipeSender {
+    VPipeSender(self.0.register_pipe(pipe_id, capacity, drain_delta))
+  }
+  pub fn deregister_pipe(&self, pipe_id: usize) {
+    self.0.deregister_pipe(pipe_id)
+  }
+  pub fn close(&self) {
+    self.0.close()
+  }
+  pub async fn recv_logical_message(&self, rcvtimeo: Option<Duration>) -> Result<(usize, FrameBatch), ZmqError> {
+    self.0.recv_logical_message(rcvtimeo).await
+  }
+}
